@@ -24,7 +24,7 @@ EXPLANATION = (
     "where it stopped (chunks compose, whether the register inversion lives in the core or in the entry "
     "points), and an empty chunk changes nothing; (5) the page-header parser sets has_crc to a constant "
     "true in the arm that reads field 4, whatever the stored value. A page whose load failed is retried at the same position, not stepped over (carquet_read_next_page "
-    "executed abstractly over page states x a failing load; rule shared with C02.2). Decides these clauses, not equality "
+    "executed abstractly over page states x a failing load; rule shared with C02.2). The writer side is decided on the finaliser's abstract execution (48 configurations): a CRC value is an opaque term naming the byte ranges folded into it, in order, by carquet_crc32 or chained carquet_crc32_update calls, and PageHeader.crc must cover exactly the stored payload in stored order. Decides these clauses, not equality "
     "with zlib for all inputs nor the CRC's error-detection algebra.")
 
 PR = "src/reader/page_reader.c"
